@@ -6,6 +6,7 @@ import (
 	"fmt"
 	"io"
 	"net/http"
+	"net/http/httptest"
 	"net/url"
 	"runtime"
 	"strings"
@@ -1128,7 +1129,87 @@ func C15(r *h.Run) {
 	r.Sum.Rule = "scripted transport: as C14 with the end of the context (cancel / deadline) injected before the call, between any two operations, between the two writes of a Send, during a Send blocked on the pipe, during a Receive blocked on the response or in the body read; live: real handlers over HTTP/1.1 and HTTP/2, cancellation at random instants, the handler's context must end; a handler returning its context's error."
 	rng := r.Rng.Fork("c15")
 	dxFamily(r, rng, "C15", "scripted_cancel")
+	c15DeadlineWhileReceiving(r)
 	liveFamily(r, rng.Fork("live"), "live_cancel", true)
+}
+
+// stallBody delivers its first chunk at once and the rest after a pause (a slow upload).
+type stallBody struct {
+	chunks [][]byte
+	pause  time.Duration
+	i      int
+}
+
+func (b *stallBody) Read(p []byte) (int, error) {
+	if b.i >= len(b.chunks) {
+		return 0, io.EOF
+	}
+	if b.i == 1 {
+		time.Sleep(b.pause)
+	}
+	n := copy(p, b.chunks[b.i])
+	if n < len(b.chunks[b.i]) {
+		b.chunks[b.i] = b.chunks[b.i][n:]
+		return n, nil
+	}
+	b.i++
+	return n, nil
+}
+func (b *stallBody) Close() error { return nil }
+
+// c15DeadlineWhileReceiving: the deadline the peer announced passes while the handler is still
+// receiving the (slowly uploaded) request message of a unary call, before user code has started:
+// the call must end with deadline_exceeded, never with success.
+func c15DeadlineWhileReceiving(r *h.Run) {
+	for _, proto := range []string{"connect", "grpc", "grpcweb"} {
+		for _, pauseMs := range []int{0, 400} {
+			cfg := envCfg{Proto: proto}
+			ran := false
+			handler := connect.NewUnaryHandler("/verif.Svc/Unary", func(_ context.Context, req *connect.Request[h.Raw]) (*connect.Response[h.Raw], error) {
+				ran = true // (user code that does not look at its context)
+				return connect.NewResponse(&h.Raw{B: []byte("ok")}), nil
+			}, cfg.handlerOpts()...)
+			payload := []byte("0123456789abcdef")
+			body := payload
+			if proto != "connect" {
+				body = h.Frame(0, payload)
+			}
+			req := httptest.NewRequest(http.MethodPost, "/verif.Svc/Unary", nil)
+			req.ProtoMajor, req.ProtoMinor = 2, 0
+			req.Body = &stallBody{chunks: [][]byte{body[:7], body[7:]}, pause: time.Duration(pauseMs) * time.Millisecond}
+			req.ContentLength = -1
+			req.Header.Set("Content-Type", cfg.contentType(true))
+			if proto == "connect" {
+				req.Header.Set("Connect-Timeout-Ms", "120")
+			} else {
+				req.Header.Set("Grpc-Timeout", "120m")
+			}
+			rec := httptest.NewRecorder()
+			timedOut, p := withWatchdog(5*time.Second, func() { handler.ServeHTTP(rec, req) })
+			kind := "server"
+			if proto == "connect" {
+				kind = "unary"
+			}
+			in := map[string]any{"proto": proto, "kind": "unary", "announced_timeout_ms": 120, "request_body_stalls_for_ms": pauseMs, "user_code": "ignores its context, returns a response"}
+			r.Eval("deadline_while_receiving", fmt.Sprint(proto, pauseMs))
+			if timedOut || p != nil {
+				r.Fail(h.Failure{Key: "handler-deadline/hang-or-panic", Family: "deadline_while_receiving", What: fmt.Sprint("hang or panic: ", p), Input: in})
+				continue
+			}
+			code, _ := peerError(proto, kind, rec)
+			r.Sample("deadline_while_receiving", map[string]any{"in": in, "peer_code": code, "user_code_ran": ran})
+			switch {
+			case pauseMs == 0 && code != "":
+				r.Fail(h.Failure{Key: "handler-deadline/control-failed", Family: "deadline_while_receiving", What: "a call served well within its deadline failed", Input: in, Actual: code})
+			case pauseMs > 0 && code != "deadline_exceeded":
+				got := code
+				if got == "" {
+					got = "success"
+				}
+				r.Fail(h.Failure{Key: "handler-deadline/not-deadline-exceeded", Family: "deadline_while_receiving", What: "the deadline passed before the handler's user code started and the peer was answered with " + got, Input: in, Expected: "deadline_exceeded", Actual: fmt.Sprint(got, " user_code_ran=", ran)})
+			}
+		}
+	}
 }
 
 // connCapture is an interceptor that records the StreamingClientConn of the call.
